@@ -116,15 +116,21 @@ SIM_RE = re.compile(r"The number of states generated: (\d[\d,]*)")
 
 
 def run_tlc(ctx, module, cfg, workers=4, simulate=None, expect_violation=None, timeout=900,
-            env_extra=None, capture="out.txt", java_opts=None, depth_first=False):
+            env_extra=None, capture="out.txt", java_opts=None, depth_first=False, subst=None):
     """Runs TLC on spec/<module>.tla with spec/<cfg>.  Returns dict(out=path, states, distinct, violated).
     expect_violation: name of an invariant that MUST be reported violated (negative control)."""
     out = ctx.path(capture)
     meta = ctx.path("tlc-" + cfg.replace(".cfg", ""))
     # the run's seed is substituted for the Seed constant of generator configs
     cfg_txt = open(os.path.join(SPEC, cfg)).read()
+    subst = dict(subst or {})
     if re.search(r"^\s*Seed = \d+", cfg_txt, re.M):
-        cfg_txt = re.sub(r"^(\s*)Seed = \d+", r"\g<1>Seed = %d" % (ctx.seed % 60000), cfg_txt, flags=re.M)
+        subst.setdefault("Seed", ctx.seed % 60000)
+    if subst:
+        for k, v in subst.items():
+            cfg_txt, n = re.subn(r"^(\s*)%s = .*$" % k, r"\g<1>%s = %s" % (k, v), cfg_txt, flags=re.M)
+            if n != 1:
+                raise ToolError("constant %s not found in %s" % (k, cfg))
         cfg_path = ctx.path(cfg)
         open(cfg_path, "w").write(cfg_txt)
     else:
@@ -162,8 +168,8 @@ def run_tlc(ctx, module, cfg, workers=4, simulate=None, expect_violation=None, t
     violated = re.findall(r"Invariant (\w+) is violated", txt_tail) + \
         re.findall(r"Action property (\w+) is violated", txt_tail)
     errored = ("Error:" in txt_tail) and not violated
-    run = {"module": module, "cfg": cfg, "generated": gen, "distinct": distinct,
-           "simulate": simulate, "violated": violated, "wall_s": round(time.time() - t0, 1)}
+    run = {"module": module, "cfg": cfg, "constants": {k: str(v) for k, v in subst.items()}, "generated": gen, "distinct": distinct,
+           "violated": violated, "wall_s": round(time.time() - t0, 1)}
     ctx.tlc_runs.append(run)
     if errored or (p.returncode not in (0, 12, 13) and not violated):
         raise ToolError("TLC failed on %s/%s (rc=%s): %s" % (module, cfg, p.returncode, err_excerpt(txt_tail)))
